@@ -6609,6 +6609,23 @@ def sentinel_get_tests(tree):
         class T(ast.NodeTransformer):
             def visit_Compare(self, node):
                 self.generic_visit(node)
+                # getattr(x, "a", SENTINEL) is SENTINEL -> not hasattr(x, "a")
+                if len(node.ops) == 1 and isinstance(
+                        node.ops[0], (ast.Is, ast.IsNot)) and isinstance(
+                        node.left, ast.Call) and norm(
+                        node.left.func) == "getattr" and len(
+                        node.left.args) == 3 and not node.left.keywords \
+                        and isinstance(node.left.args[2], ast.Name) and \
+                        node.left.args[2].id in sent and isinstance(
+                        node.comparators[0], ast.Name) and \
+                        node.comparators[0].id == node.left.args[2].id:
+                    has = ast.Call(func=ast.Name(id="hasattr",
+                                                 ctx=ast.Load()),
+                                   args=node.left.args[:2], keywords=[])
+                    done[0] = True
+                    new = has if isinstance(node.ops[0], ast.IsNot) else \
+                        ast.UnaryOp(op=ast.Not(), operand=has)
+                    return ast.copy_location(new, node)
                 if len(node.ops) == 1 and isinstance(
                         node.ops[0], (ast.Is, ast.IsNot)) and isinstance(
                         node.left, ast.Name) and node.left.id in live and \
